@@ -108,6 +108,9 @@ RefsOK(r) ==
     /\ r.lockmid = 1 /\ r.uniqmid = 0 /\ r.clrmid = 0
     /\ r.locklast = 1 /\ r.uniqlast = 0 /\ r.clrlast = 0
     /\ r.clrend = 1 /\ r.lockend = 0
+    \* n locks while owners exist all yield the memory, n locks afterwards all yield an empty pointer (nobody waits, nothing
+    \* is cleared a second time): counters of any width that only ever count up would show here
+    /\ r.lockrounds = r.n /\ r.deadrounds = r.n /\ r.clrfinal = 1
 \* C14 with 7*10^4 views of one external buffer: release refuses (and changes nothing) while other views exist,
 \* every index stays inside the buffer, the sole remaining user gets the buffer back
 ViewsOK(r) ==
